@@ -42,7 +42,7 @@ theorem matchMain_byte (e : Eng) (b : Nat) (rest : List Nat) (bd : Bind)
     simp [Keys.pop, hbuf]
   simp only [dispatchKeys, hpeek, List.nil_append, matchBind_eq, h1, h2, hact, false_and, if_false,
     Bool.false_eq_true, hpop, matchCharacter_bound _ _ _ _ hact]
-  simp [Keys.matchedKeys, runes_single b hb, isEscapeKey, hesc, hasCmd, hmk, nonIncOverride, hni]
+  simp [Keys.matchedKeys, runes_single b hb, isEscapeKey, hesc, hasCmd, hmk, nonIncOverrideR, nonIncOverride, hni]
 
 
 /-- state between keystrokes while typing at the end of the line -/
